@@ -149,7 +149,7 @@ static void op_mgmt(int nt, char **t) {
         printf(" deauth=");
         if (pr != 0) printf("err"); else { printf("o%d,", d.ordered); out_hex((unsigned char *) &d.frame_header, d.ordered ? 28 : 24);
             printf(",r%u,t%zu:", d.fixed_parameters.reason_code, d.tags.length); if (d.tags.length) out_hex(d.tags.parameters, d.tags.length); else putchar('-'); }
-        if (pr == 0 || 1) LIB(free(pr == 0 ? d.tags.parameters : (d.tags.length ? d.tags.parameters : NULL)));   /* no release routine exists (F33) */
+        LIB(libwifi_free_parsed_deauth(&d));
     }
     {
         struct libwifi_parsed_disassoc d; memset(&d, prefill, sizeof d);
@@ -157,7 +157,7 @@ static void op_mgmt(int nt, char **t) {
         printf(" disassoc=");
         if (pr != 0) printf("err"); else { printf("o%d,", d.ordered); out_hex((unsigned char *) &d.frame_header, d.ordered ? 28 : 24);
             printf(",r%u,t%zu:", d.fixed_parameters.reason_code, d.tags.length); if (d.tags.length) out_hex(d.tags.parameters, d.tags.length); else putchar('-'); }
-        LIB(free(pr == 0 ? d.tags.parameters : (d.tags.length ? d.tags.parameters : NULL)));
+        LIB(libwifi_free_parsed_disassoc(&d));
     }
     LIB(libwifi_free_wifi_frame(&f));
     if (ledger_live()) printf(" LEAK(%d)", ledger_live());
